@@ -94,10 +94,18 @@ class Universe:
             return z3.BoolVal(self.is_subclass(self.names[tidx], cls))
         if z3.is_int_value(tidx):
             return z3.BoolVal(self.is_subclass(self.names[tidx.as_long()], cls))
-        subs = [i for i, n in enumerate(self.names) if self.is_subclass(n, cls)]
-        if len(subs) == len(self.names):
-            return z3.BoolVal(True)
-        return z3.Or([tidx == i for i in subs]) if subs else z3.BoolVal(False)
+        # the disjunction is built once per class over a template variable and instantiated by substitution
+        # (building ~100 equalities per EXC-ANY site in Python dominated the abstract executions)
+        cache = self.__dict__.setdefault("_sub_templates", {})
+        if cls not in cache:
+            subs = [i for i, n in enumerate(self.names) if self.is_subclass(n, cls)]
+            tv = z3.Int("__exc_template__")
+            if len(subs) == len(self.names):
+                cache[cls] = (tv, z3.BoolVal(True))
+            else:
+                cache[cls] = (tv, z3.Or([tv == i for i in subs]) if subs else z3.BoolVal(False))
+        tv, tmpl = cache[cls]
+        return z3.substitute(tmpl, (tv, tidx))
 
     def any_exception(self, prefix="exc"):
         """Fresh symbolic type that is some subclass of Exception (EXC-ANY)."""
